@@ -41,6 +41,17 @@ func (e *Engine) tryCounterexample(o *Obligation, axioms []axiomTerm, repo, veri
 		return v.(*Cex)
 	}
 	c := runReplay(rs, repo, verif, o.Name, opt.property, opt.seed)
+	for i := range opt.replayMore {
+		if c.Reproduced {
+			break
+		}
+		c2 := runReplay(&opt.replayMore[i], repo, verif, o.Name, opt.property, opt.seed)
+		if c2.Reproduced {
+			c = c2
+		} else {
+			c.Log += "\n" + c2.Log
+		}
+	}
 	replayOnce.Store(key, c)
 	return c
 }
